@@ -627,7 +627,7 @@ Proof.
     pose proof (handleError_reff s i Hc Hs) as R. rewrite H in R.
     eapply (reff_Tinv s s q s1 _ i false); eauto; try apply ksub_refl. apply qnext_ok; auto. destruct R as (N & _). lia.
   - (* TimerFire *)
-    destruct (min_due (timers s)) as [t0|] eqn:Em; [|discriminate]. destruct (has_dup _); [discriminate|]. apply some_inj in H.
+    destruct (min_due (timers s)) as [t0|] eqn:Em; [|discriminate]. apply some_inj in H.
     set (now' := Z.max (now s) t0) in *.
     set (s0 := set_now (set_timers s (filter (fun t => now' <? fst t) (timers s))) now') in *.
     assert (Tm : timely s = true) by (apply (live_timely s q); auto; congruence).
@@ -675,7 +675,7 @@ Proof.
     destruct (find_down _ _ _); [|discriminate]. apply some_inj in H. eapply (TE s); [exact TS0|exact H|apply handleClose_teff|reflexivity].
   - destruct (negb (user_api_ok s)); [discriminate|]. destruct (connection s); [|discriminate]. destruct (find_user _ _); [discriminate|].
     apply some_inj in H. eapply (TE (setc s n (c_set_user 1%nat))); [unfold tsame; cbn; auto 10|exact H|apply teff_refl|reflexivity].
-  - destruct (find_user _ _) as [c|]; [|discriminate]. destruct (nth_error _ _); [|discriminate]. destruct (_ && _); [discriminate|].
+  - destruct (find_user _ _) as [c|]; [|discriminate]. destruct (nth_error _ _); [|discriminate].
     apply some_inj in H. eapply (TE (setc s c (c_set_user 0%nat))); [unfold tsame; cbn; auto 10|exact H|apply teff_refl|reflexivity].
 Qed.
 
